@@ -53,7 +53,7 @@ func NewIQ(start xml.StartElement) (IQ, error) {
 			v.Lang = attr.Value
 			continue
 		}
-		if attr.Name.Space != "" && attr.Name.Space != start.Name.Space {
+		if attr.Name.Space != "" {
 			continue
 		}
 
